@@ -107,26 +107,41 @@ def run(ctx, chk):
             r = pa.ret
             ok = r[0] == "ld" and r[1][0] == "ld" and r[1][1] == ("arg", 0) and r[1][2] == off["data"] and r[2] == 0
             chk.ob("C15.identity-move", g.name + " returns the value at item->data", ok, "%s:%d" % (g.file, g.line), fn=g.name)
+        # builder and decoder callback: decided on the STATE of the item they produce (constructors, setters and any
+        # helper they delegate to inlined): a float item of this width whose payload is the parameter, unconverted
+        FWv = prog.enum("cbor_float_width")["CBOR_FLOAT_%s" % {"2": "16", "4": "32", "8": "64"}[w]]
+        TFC = prog.enum("cbor_type")["CBOR_TYPE_FLOAT_CTRL"]
+        fty = {"2": "float", "4": "float", "8": "double"}[w]
+
+        def holds(d, param):
+            if d is None:
+                return False, "no item"
+            if d["type"] != ("c", TFC) or d["meta0"] != ("c", FWv):
+                return False, "type %s / width %s" % (d["type"], d["meta0"])
+            if d["refcount"] != ("c", 1):
+                return False, "reference count %s" % (d["refcount"],)
+            pays = d.get("payload") or {}
+            if pays.get(fty) != param:
+                return False, "payload %s is not the parameter, unconverted" % (pays,)
+            return True, ""
         b = prog.fn("cbor_build_float" + w)
-        okb = True
-        for pa in cache.get(b.name):
-            sets = pa.calls("cbor_set_float" + w)
-            news = pa.calls("cbor_new_float" + w)
-            if pa.ret != ("c", 0):
-                okb = okb and len(sets) == 1 and len(news) == 1 and sets[0].args == (news[0].res, ("arg", 0)) and pa.ret == news[0].res
-        chk.ob("C15.identity-move", b.name + ": constructor and setter of one width, value unchanged", okb, "%s:%d" % (b.file, b.line), fn=b.name)
+        okb, detb, nb_ = True, "", 0
+        for rs in tables.result_states(prog, eff, b.name):
+            if rs["desc"] is None:
+                continue
+            nb_ += 1
+            o_, d_ = holds(rs["desc"], ("arg", 0))
+            okb, detb = okb and o_, detb or d_
+        chk.ob("C15.identity-move", b.name + ": a float item of this width holding the value unchanged", okb and nb_ >= 1, "%s:%d" % (b.file, b.line),
+               fn=b.name, detail=detb)
         cb = prog.fn("cbor_builder_float%s_callback" % w)
-        okc = True
-        n_ok = 0
-        for pa in cache.get(cb.name):
-            sets = pa.calls("cbor_set_float" + w)
-            news = pa.calls("cbor_new_float" + w)
-            if news and pa.st.known_nonnull(news[0].res):
-                n_ok += 1
-                okc = okc and len(sets) == 1 and sets[0].args == (news[0].res, ("arg", 1))
-            okc = okc and not [e for e in pa.events if e.kind == "call" and e.callee.startswith("cbor_new_float") and e.callee != "cbor_new_float" + w]
+        okc, detc, n_ok = True, "", 0
+        for rs in tables.result_states(prog, eff, cb.name, at_call="_cbor_builder_append"):
+            n_ok += 1
+            o_, d_ = holds(rs["desc"], ("arg", 1))
+            okc, detc = okc and o_, detc or d_
         chk.ob("C15.identity-move", cb.name + ": builds a float%s holding the callback's value" % w, okc and n_ok >= 1,
-               "%s:%d" % (cb.file, cb.line), fn=cb.name)
+               "%s:%d" % (cb.file, cb.line), fn=cb.name, detail=detc)
     cp = prog.fn("_cbor_copy_float_ctrl")
     FW = prog.enum("cbor_float_width")
     import typestate as _ts
@@ -249,7 +264,7 @@ def check_half_classes(chk, prog, eff, prefix="C15"):
     for pa in ps:
         fs = [(t, truth) for t, truth, _ in pa.facts]
         for t, _ in fs:
-            if t[0] != "icmp":
+            if t[0] not in ("icmp", "in", "notin"):
                 raise AnalysisBroken("_cbor_decode_half branches on a non-integer condition: %r" % (t,))
         facts.append(fs)
     bad = []
